@@ -236,20 +236,14 @@ func NewService(nodeID, dir string, clstr Cluster, cfg *Config) (*Service, error
 	}
 	srv.fifo = fifo
 
-	// Whatever is the first key in the FIFO we assume has not been sent. This ensures we meet the
-	// at least-once guarantee. So set the highwater mark to one before.
-	//
-	// In other words we assume that anything sitting in the queue has not been sent to the webhook.
-	// If that is not the case then an HWM update from other nodes in the cluster may update it
-	// (and prune the FIFO).
-	higHWM, err := fifo.FirstKey()
-	if err != nil {
-		return nil, fmt.Errorf("failed to read first key from FIFO: %w", err)
-	}
-	if higHWM > 0 {
-		higHWM -= 1
-	}
-	srv.highWatermark.Store(higHWM)
+	// Start with no high watermark: nothing is known to have been sent. Everything sitting in
+	// the FIFO is assumed not to have been sent to the webhook, which ensures we meet the
+	// at-least-once guarantee; if that is not the case then an HWM update from other nodes in
+	// the cluster will raise the high watermark (and prune the FIFO). The first key in the FIFO
+	// must not be used to derive a high watermark: a FIFO item holds a batch of events and is
+	// keyed by the highest index in the batch, so it may hold unsent events with lower indexes,
+	// and a high watermark covering those would be broadcast to, and acted upon by, other nodes.
+	srv.highWatermark.Store(0)
 
 	return srv, nil
 }
